@@ -389,7 +389,11 @@ def aliasConstraints (w : World) (i1 i2 : ObjId) : WR :=
 /-- the cycle test of the pair form: `repaired = true` is the loop over `getFrom`,
 `repaired = false` the test as found (only the reverse direct link `__alias_p1_to_p2`) -/
 def cycleTest (repaired : Bool) (w : World) (o : Obj) (p1 p2 : String) : Option Bool :=
-  if repaired then followsLoop w o p2 (o.reg.length + 2) p1
+  if repaired then
+    -- the listener id must not be in use already (repair: names containing "_to_" can give two different
+    -- links the same id); same outcome as a cycle: `Exception`, nothing changed
+    if (mapFind? (aliasId p1 p2) o.reg).isSome then some true
+    else followsLoop w o p2 (o.reg.length + 2) p1
   else some ((mapFind? (aliasId p2 p1) o.reg).isSome)
 
 def aliasPairG (repaired : Bool) (w : World) (k : Nat) (p1 p2 : String) : WR :=
@@ -449,7 +453,9 @@ def unalias (w : World) (k : Nat) (p1 p2 : String) : WR :=
     | some _, none => { w := w, err := some .notfound }
     | some i1, some i2 =>
       let id := aliasId p1 p2
-      match mapFind? id o.reg with
+      -- repaired: the registered listener must be the one of `p2` following `p1` (the id alone does not
+      -- identify the link when names contain "_to_")
+      match (mapFind? id o.reg).filter (fun l => (w.lis l).src == p1 && (w.lis l).name == o.pre ++ p2) with
       | none => { w := w, err := some .bpp }
       | some _ =>
         -- `removeParameterListener(id)`: every attached listener object whose id is `id`
